@@ -1069,9 +1069,11 @@ func (f *File) Cleanup() {
 	}
 	// Likewise for the other comments that carry meaning: the indirect
 	// marker of a requirement and the deprecation notice of the module.
+	// A requirement keeps the marking it was given: a comment inherited
+	// from the block must not turn a direct requirement into an indirect one.
 	for _, r := range f.Require {
 		if r.Syntax != nil && !r.Syntax.InBlock {
-			r.Indirect = isIndirect(r.Syntax)
+			r.setIndirect(r.Indirect)
 		}
 	}
 	if f.Module != nil && f.Module.Syntax != nil && !f.Module.Syntax.InBlock {
